@@ -338,7 +338,10 @@ def run(ctx, rep):
         if t[0] == "call" and t[2] in ("saturating_add", "checked_add", "wrapping_add") and len(t[3]) == 2:
             a, c = peel(t[3][0]), t[3][1]
             enc = [x for x in calls_in(a) if x[2] == "consensus_encode"]
-            if t[2] == "saturating_add" and is_int(c, 50) and enc and 1 in vcc.param_roots(enc[0][3][0], fm):
+            # the length is that of ONE consensus encoding of the whole stack (the parameter itself): not a sum the code
+            # assembles from the items, which would have to re-derive the CompactSize of the item count
+            whole = a[0] == "call" and a[2] == "consensus_encode" and peel(a[3][0])[0] == "param" and peel(a[3][0])[1] == 1
+            if t[2] == "saturating_add" and is_int(c, 50) and enc and whole:
                 okk = True
         elif t[0] == "bin" and t[1] in ("Add", "AddWithOverflow"):
             a, c = peel(t[2]), t[3]
@@ -383,6 +386,26 @@ def run(ctx, rep):
         return False    # a plain `* 1000` overflows for weights above u32::MAX / 1000
     round_up(F, rep, is_ceil_div)
     conv(COST_FROM_W, "cost(weight) = 1000 x weight", is_mul1000)
+    wf = F.fn("<simplicity::analysis::U32Weight as std::convert::From<simplicity::bitcoin::Weight>>::from")
+    if wf is None:
+        rep.anchor("C19.round", "From<bitcoin::Weight> for U32Weight")
+    else:
+        tw = Terms(wf, transparent={k: v for k, v in fm.TRANSPARENT_CALLS.items() if k not in ("from", "into", "unwrap", "expect")}).local(0)
+        names = {c[2] for c in calls_in(tw)}
+
+        def has_cast(t):
+            if isinstance(t, tuple) and t:
+                if t[0] == "cast":
+                    return True
+                return any(has_cast(y) for y in t[1:] if isinstance(y, tuple)) or \
+                    any(has_cast(z) for y in t[1:] if isinstance(y, tuple) and y and isinstance(y[0], tuple) for z in y)
+            return False
+        sat = ("try_from" in names or "try_into" in names) and any(n in names for n in ("unwrap_or", "unwrap_or_else", "map_or", "min")) or "min" in names
+        if sat and "to_wu" in names:
+            rep.ok("C19.round", "weight from bitcoin::Weight saturates at u32::MAX", show(tw)[:80])
+        else:
+            rep.violation("C19.round", "U32Weight from bitcoin::Weight", "the 64-bit weight is narrowed with %s: a weight of 2^32 WU or more wraps around "
+                          "(to 0 WU), so the conversion is not monotone and such a cost counts as within any budget" % show(tw)[:100], wf.where())
     for path, label, via in (
             ("simplicity::analysis::<impl std::convert::From<simplicity::analysis::Cost> for simplicity::bitcoin::Weight>::from",
              "bitcoin::Weight from Cost goes through the rounding-up conversion", W_FROM_COST),
